@@ -114,7 +114,7 @@ def check_bad_rule(ctx, rid):
     from_handler = any(rn.id in g.reachable(start=h.id, feasible=fl.feasible) for h in broad)
     normal_succ = [b for b, l in g.succ[ln.id] if l != "exc"]
     from_normal = any(rn.id in g.reachable(start=b, feasible=fl.feasible) for b in normal_succ)
-    lens = [t for t in g.nodes if t.kind == "test" and "len(result)" in norm(t.ast) and "len(batch)" in norm(t.ast) and ("!=" in norm(t.ast))]
+    lens = [t for t in g.nodes if t.kind == "test" and "len(result)" in norm(t.ast) and "len(batch)" in norm(t.ast)]
     if from_handler and from_normal and lens:
         rr.ok("check_bad: os.remove(result) reachable on the unreadable path and on the wrong-length path when delete_bad")
     else:
